@@ -47,6 +47,17 @@ def conc_cases(r):
     return out
 
 
+def then_cases(r):
+    """explored reads (which the consumer may stop at any point, also before the first share is known)
+    FOLLOWED by reads on the same node object at the default schedule: what an interrupted read
+    leaves behind in the node must not break the next one"""
+    out = []
+    for combo in itertools.combinations_with_replacement(range(len(CONC) - 1), r):
+        for after in ([[0, None]], [[44, 10], [0, 5]]):
+            out.append(dict(BASE, consumer_choices=True, groups=[[CONC[i] for i in combo], after], explore_groups=[0]))
+    return out
+
+
 def literal_chunk(chunk, seed):
     res = common.Result()
     for (size, off, sz) in chunk:
@@ -86,14 +97,14 @@ def run(tier, seed):
     n0 = res.counts.get("executions", 0)
     if tier == "quick":
         cc = conc_cases(2)
-        plan = [(cc, 1), ([c for c in cc if len(c["groups"]) == 1][::2], 2)]
+        plan = [(cc, 1), ([c for c in cc if len(c["groups"]) == 1][::2], 2), (then_cases(1), 2), (then_cases(2)[::3], 1)]
     else:
-        plan = [(conc_cases(2), 3), (conc_cases(3), 2)]
-    plan += [([dict(c, batch=True) for c in cs], max(0, d - 1)) for (cs, d) in list(plan)]     # several answers per reactor turn
+        plan = [(conc_cases(2), 3), (conc_cases(3), 2), (then_cases(1), 3), (then_cases(2), 2)]
+    plan += [([dict(c, batch=True) for c in cs], max(0, d - 1)) for (cs, d) in list(plan)[:3]]     # several answers per reactor turn
     desc = []
     for cases, d in plan:
         res.merge(common.pmap(lib_imm.explore_chunk, cases, (seed, d, 0, 20000, "C04"), chunks=len(cases)))
-        desc.append("%d concurrent multisets of %d reads at d<=%d%s" % (len(cases), len(cases[0]["groups"][0]), d, " (several answers per reactor turn)" if cases[0].get("batch") else ""))
+        desc.append("%d concurrent multisets of %d reads%s at d<=%d%s" % (len(cases), len(cases[0]["groups"][0] if cases[0].get("explore_groups") != [1] else cases[0]["groups"][1]), " followed by further reads on the node" if cases[0].get("explore_groups") == [0] else "", d, " (several answers per reactor turn)" if cases[0].get("batch") else ""))
     cov = lib_imm.coverage_from(res, "single reads: %d (offset,size) pairs x {fresh node, node that already read another range} + %d literal reads at the default schedule (%d executions); then %s, deviations = reordered deliveries, early timers, consumer pause/stop at any write" % (len(OFFS) * len(SIZES), len(lits), n0, "; ".join(desc)),
                                 {"deviation_bound_completed": max(p[1] for p in plan)})
     return res, cov
